@@ -148,7 +148,30 @@ pub fn through_history(files: &Files, seed: u64) -> (Json, Json, Json) {
         p.remove_content("zz_extra".to_owned());
     }
     // ids the final state does not hold are gone already (only final ids and zz_extra were used)
-    for (id, text) in files {
+    // Now and then the files whose final content has NO tree come last, after a call of `validate`: whatever an
+    // earlier content of such an id defined (and whatever a call computed from it) must be gone afterwards.
+    let mut ids: Vec<&String> = files.iter().map(|f| &f.0).collect();
+    ids.sort();
+    ids.dedup();
+    let unique = ids.len() == files.len();
+    let mut order: Vec<&(String, String)> = files.iter().collect();
+    let mut treeless_from = order.len();
+    if unique && r.chance(1, 2) {
+        let has_tree = |f: &(String, String)| -> bool {
+            let mut q: Parser<String> = Parser::new();
+            q.add_content(f.0.clone(), &f.1);
+            q.verif_parse_results().get(&f.0).map(|x| x.ast.is_some()).unwrap_or(false)
+        };
+        let (with, without): (Vec<&(String, String)>, Vec<&(String, String)>) = files.iter().partition(|f| has_tree(f));
+        treeless_from = with.len();
+        order = with;
+        order.extend(without);
+    }
+    for (k, (id, text)) in order.into_iter().enumerate() {
+        if k == treeless_from && r.chance(2, 3) {
+            log.push(Json::Arr(vec![Json::s("validate")]));
+            let _ = p.validate();
+        }
         log.push(Json::Arr(vec![Json::s("add"), Json::s(id.clone()), Json::s("<final>")]));
         p.add_content(id.clone(), text);
     }
@@ -453,8 +476,14 @@ pub fn parse_case(files: &Files, extra: Vec<(&'static str, Json)>) -> Vec<(&'sta
     v
 }
 
+/// line / column of every character boundary of every file (the `line-col` crate's answer: the truth the
+/// positions of the implementation's trees and diagnostics are compared with)
+pub fn lc_of(files: &Files) -> Json {
+    Json::Arr(files.iter().map(|(id, t)| Json::Arr(vec![Json::s(id.clone()), lc_table(t)])).collect())
+}
+
 pub fn validate_case(files: &Files) -> Vec<(&'static str, Json)> {
-    vec![("op", Json::s("validate")), ("files", files_json(files)), ("impl", impl_validate(files))]
+    vec![("op", Json::s("validate")), ("files", files_json(files)), ("lc", lc_of(files)), ("impl", impl_validate(files))]
 }
 
 /// what the syntax stage must have read from documents generated from `proj` (position-erased trees)
@@ -466,6 +495,7 @@ pub fn validate_case_after(files: &Files, prev: &Files) -> Vec<(&'static str, Js
     vec![
         ("op", Json::s("validate")),
         ("files", files_json(files)),
+        ("lc", lc_of(files)),
         ("prev", files_json(prev)),
         ("impl", impl_validate_after(files, Some(prev))),
     ]
@@ -568,6 +598,22 @@ pub fn run(suite: &str, thorough: bool, seed: u64, shard: usize, nshards: usize,
                 let cfg = gen::DocCfg { docs: false, ..Default::default() };
                 let proj = gen::gen_project(&mut r, &cfg);
                 let style = if r.chance(1, 4) { LayoutStyle::Wild } else { LayoutStyle::Plain };
+                // what a file imports was once defined by an id whose content is replaced LAST by a text without a tree:
+                // the definition is gone with it (nothing added afterwards refreshes anything)
+                let all_imports: Vec<Vec<String>> = proj.iter().flat_map(|(_, d)| d.imports.iter().cloned()).filter(|i| i.len() > 1).collect();
+                if !all_imports.is_empty() && r.chance(1, 8) {
+                    let imp = r.pick(&all_imports).clone();
+                    let kind = *r.pick(&["parcelable", "interface", "enum"]);
+                    let body = if kind == "enum" { "{ A }" } else { "{}" };
+                    let definer = format!("package {};\n{} {} {}\n", imp[..imp.len() - 1].join("."), kind, imp[imp.len() - 1], body);
+                    let prev: Files = vec![("zlast".to_owned(), definer)];
+                    let mut files = render_project(&proj, style, &mut r);
+                    files.push(("zlast".to_owned(), (*r.pick(&["$", "package ;", "package a.b; interface {", ""])).to_owned()));
+                    let mut c = validate_case_after(&files, &prev);
+                    c.push(("expect_sx", expect_sx_of(&proj)));
+                    em.case(s, c);
+                    continue;
+                }
                 if r.chance(1, 4) {
                     // the parser held other contents under the same ids before: another project,
                     // or (mostly) THIS project before some of its items were renamed / moved to
@@ -1153,7 +1199,12 @@ pub fn run(suite: &str, thorough: bool, seed: u64, shard: usize, nshards: usize,
                     f1.insert(0, ("zbroken".to_owned(), text.clone()));
                     f2.insert(0, ("zbroken".to_owned(), text));
                 }
-                em.case(s, crate::store_ops::perturb_case(&f1, &f2, &target, how));
+                // what the syntax stage must have read in both projects (the implementation's own reading of the OTHER
+                // files is not a reference: a re-layout changes nothing, an edit changes exactly what was edited)
+                let mut c = crate::store_ops::perturb_case(&f1, &f2, &target, how);
+                c.push(("expect_sx", expect_sx_of(&proj)));
+                c.push(("expect_sx_b", expect_sx_of(&proj2)));
+                em.case(s, c);
             }
         }
         // C20: every proper prefix of generated documents followed by an unacceptable token or
